@@ -1217,7 +1217,7 @@ Proof.
     - intros p Hp. apply in_app_or in Hp. destruct Hp as [Hp|[<-|[]]]; [apply HP in Hp; lia| cbn [fst]; lia].
     - rewrite HT. cbn [scr_terms]. rewrite <- !app_assoc. reflexivity. }
   unfold rule_holds_b in Hrest. rewrite Hrest. f_equal. unfold lit_holds_b. cbn [fst snd].
-  destruct neg; cbn [TM.eval xorb]; rewrite Hv; reflexivity.
+  destruct neg; cbn [TM.eval]; rewrite Hv; destruct (lit_truth e s rq name); reflexivity.
 Qed.
 
 (* the index of the first rule that applies, as first_from counts it *)
@@ -1262,6 +1262,12 @@ Proof.
                         intros [[X _]|[_ F]]; [apply Hh in X; discriminate| exact F]].
 Qed.
 
+Lemma nthN_lenN {A} (pre : list A) y r : nthN (lenN pre) (pre ++ y :: r) = Some y.
+Proof.
+  induction pre as [|x pre IH]; cbn [lenN app nthN]; [reflexivity|].
+  destruct (N.eqb_spec (N.succ (lenN pre)) 0) as [E|E]; [lia|]. rewrite N.pred_succ. exact IH.
+Qed.
+
 Lemma first_pos_action e s rq rules : forall idx pre, lenN pre = idx ->
   match first_pos e s rq idx rules with
   | Some pos => exists r, nthN pos (pre ++ map act_of rules) = Some (act_of r) /\
@@ -1271,11 +1277,101 @@ Lemma first_pos_action e s rq rules : forall idx pre, lenN pre = idx ->
 Proof.
   induction rules as [|[al ts] r IH]; intros idx pre Hl; cbn [first_pos fm_bool]; [reflexivity|].
   destruct (rule_holds_b e s rq ts) eqn:E.
-  - exists (al, ts). split; [|reflexivity]. subst idx. clear. induction pre as [|x pre IHp]; cbn [lenN app map].
-    + reflexivity.
-    + cbn [nthN]. destruct (lenN pre + 1) eqn:En; [lia|]. rewrite <- En.
-      replace (N.pred (lenN pre + 1)) with (lenN pre) by lia. exact IHp.
+  - exists (al, ts). split; [|reflexivity]. subst idx. cbn [map]. apply nthN_lenN.
   - specialize (IH (idx + 1) (pre ++ [act_of (al, ts)]) ltac:(rewrite lenN_app; cbn [lenN]; lia)).
     destruct (first_pos e s rq (idx + 1) r) as [pos|]; [|exact IH].
     destruct IH as (r0 & Hn & Hf). exists r0. split; [|exact Hf]. rewrite <- app_assoc in Hn. exact Hn.
+Qed.
+
+Lemma lenN_num_rules rules : forall k, lenN (num_rules k rules) = lenN rules.
+Proof. induction rules as [|[al ts] r IH]; intros k; cbn [num_rules lenN]; [reflexivity| rewrite IH; reflexivity]. Qed.
+Lemma wf_num_terms terms : forall k, forallb TM.wf_node (num_terms k terms) = true.
+Proof.
+  induction terms as [|[neg name] r IH]; intros k; cbn [num_terms forallb]; [reflexivity|].
+  rewrite IH. destruct neg; reflexivity.
+Qed.
+Lemma wf_num_rules rules : forall k, forallb TM.wf_node (num_rules k rules) = true.
+Proof.
+  induction rules as [|[al ts] r IH]; intros k; cbn [num_rules forallb TM.wf_node]; [reflexivity|].
+  rewrite wf_num_terms, IH. reflexivity.
+Qed.
+Lemma explicit_acts rules : forallb (fun a => negb (TM.aimplicit a)) (map act_of rules) = true.
+Proof. induction rules as [|r rs IH]; cbn [map forallb]; [reflexivity| rewrite IH; reflexivity]. Qed.
+Lemma first_from_isb v isb l : (forall p, isb p = false) -> forall idx,
+  TM.first_from v isb idx l = TM.first_from v (fun _ => false) idx l.
+Proof.
+  intros H. induction l as [|x r IH]; intros idx; cbn [TM.first_from]; [reflexivity|]. rewrite H, IH. reflexivity.
+Qed.
+Lemma last_map_ne {A B} (f : A -> B) (l : list A) d d' : l <> [] -> last (map f l) d' = f (last l d).
+Proof.
+  induction l as [|x r IH]; intros H; [contradiction|]. destruct r as [|y r]; [reflexivity|].
+  change (last (f x :: map f (y :: r)) d') with (last (map f (y :: r)) d').
+  change (last (x :: y :: r) d) with (last (y :: r) d). apply IH. discriminate.
+Qed.
+
+Lemma lit_truth_ok cfg e s rq name : typed (full cfg) -> Forall line_ok (full cfg) -> req_ok e rq -> st_inv cfg s ->
+  find_acl name (c_acls s) <> None -> (lit_truth e s rq name = true <-> ref_acl (full cfg) e rq name).
+Proof.
+  intros HT HW HQ (Inv & _ & _) Hex. unfold lit_truth. specialize (Inv name).
+  destruct (find_acl name (c_acls s)) as [a|]; [|contradiction]. destruct Inv as [Hty Hd].
+  exact (proj2 (proj2 (leaf_ok (full cfg) e rq None name a HT HW HQ I Hty Hd))).
+Qed.
+
+Theorem checklist_machine_agrees cfg e s rq sched :
+  Forall line_ok cfg -> req_ok e rq -> cfg_parse cfg = Some s ->
+  exists c a, TM.run_check TM.MNonBlocking (tree_of (c_rules s)) [] (scripts_of e s rq sched) = Some c /\
+    TM.err c = false /\ TM.cbk c = Some a /\ (TM.acode a = TM.Allowed <-> ref_allows cfg e rq).
+Proof.
+  intros HW HQ HP. pose proof (cfg_parse_typed cfg s HP) as HT.
+  assert (HW' : Forall line_ok (full cfg)) by (apply Forall_app; split; [exact predefined_ok| exact HW]).
+  pose proof (cfg_parse_inv cfg s HW HP) as Inv. destruct Inv as (IA & IR & IE).
+  set (rules := c_rules s) in *. set (t := tree_of rules). set (tbl := scripts_of e s rq sched).
+  assert (TK : TM.tree_ok t = true).
+  { unfold TM.tree_ok, t, tree_of. cbn [TM.actions TM.rules]. destruct (map act_of rules) eqn:E; [reflexivity|].
+    rewrite <- E, TP.lenN_map, lenN_num_rules. apply N.eqb_refl. }
+  assert (WF : forallb TM.wf_node (TM.rules t) = true) by apply wf_num_rules.
+  assert (EX : TM.explicit_actions t = true) by apply explicit_acts.
+  assert (SH : TM.shared_leaves_sync t tbl).
+  { apply TP.NoDup_shared_leaves_sync. unfold TM.tree_leaf_ids, t, tree_of. cbn [TM.rules].
+    rewrite leaf_ids_rules. apply ids_rules_nodup. }
+  assert (AR : forall i, In i (TM.tree_leaf_ids t) -> forallb TM.is_real (TM.attempts (TM.lookup_script tbl i)) = true).
+  { intros i _. apply all_real_lookup, scr_rules_real. }
+  destruct (TP.nonblocking_async_invisible t [] tbl TK WF EX SH AR) as (c & a & R1 & R2 & R3 & R4).
+  exists c, a. split; [exact R1|]. split; [exact R2|]. split; [exact R3|].
+  (* the decision *)
+  assert (Hb : forall r, In r rules -> (rule_holds_b e s rq (snd r) = true <-> rule_holds (full cfg) e rq (snd r))).
+  { intros r Hr. unfold rule_holds_b, rule_holds. rewrite forallb_forall, Forall_forall.
+    assert (Hl : forall x, In x (snd r) -> (lit_holds_b e s rq x = true <-> term_holds (full cfg) e rq x)).
+    { intros [neg name] Hx. pose proof (lit_truth_ok cfg e s rq name HT HW' HQ (conj IA (conj IR IE)) (IE r (neg, name) Hr Hx)) as L.
+      unfold lit_holds_b, term_holds. cbn [fst snd]. destruct neg, (lit_truth e s rq name); cbn [xorb]; split; intros H; try discriminate; try reflexivity.
+      - exfalso. apply H, L. reflexivity.
+      - intros X. apply L in X. discriminate.
+      - apply L. reflexivity.
+      - apply L in H. discriminate. }
+    split; intros H x Hx; apply (Hl x Hx), H, Hx. }
+  unfold ref_allows. rewrite <- IR. rewrite <- (fm_bool_allows _ _ rules _ Hb).
+  assert (D : TM.decide TM.MNonBlocking (fun i => TM.truth (TM.lookup_script tbl i)) t [] =
+              match first_pos e s rq 0 rules with
+              | Some pos => (TM.acode (TM.nth_action t pos), TM.akind (TM.nth_action t pos), false)
+              | None => (TM.opposite (TM.acode (last (TM.actions t) (TM.action TM.Dunno 0))), 0, true)
+              end).
+  { unfold TM.decide. rewrite (first_from_isb _ (TM.rule_banned t []) _ ltac:(intros p; unfold TM.rule_banned; destruct (TM.actions t); reflexivity)).
+    unfold t at 1, tree_of. cbn [TM.rules].
+    rewrite (rules_eval e s rq sched tbl rules 1 0 [] [] ltac:(intros p []) ltac:(unfold tbl, scripts_of; fold rules; rewrite app_nil_r; reflexivity)).
+    pose proof (first_pos_action e s rq rules 0 [] eq_refl) as FA.
+    destruct (first_pos e s rq 0 rules) as [pos|]; [|reflexivity].
+    destruct FA as (r0 & Hn & _). cbn [app] in Hn. unfold t, tree_of. cbn [TM.actions].
+    destruct (map act_of rules); [discriminate Hn| reflexivity]. }
+  rewrite D in R4. clear D.
+  pose proof (first_pos_action e s rq rules 0 [] eq_refl) as FA.
+  destruct (first_pos e s rq 0 rules) as [pos|].
+  - destruct FA as (r0 & Hn & Hf). cbn [app] in Hn. rewrite Hf.
+    unfold TM.nth_action, t, tree_of in R4. cbn [TM.actions] in R4. rewrite Hn in R4.
+    unfold TM.result in R4. injection R4 as E1 E2 E3. rewrite E1. unfold act_of, TM.action. cbn [TM.acode].
+    destruct (fst r0); split; intros X; try reflexivity; discriminate.
+  - rewrite FA. unfold TM.result in R4. injection R4 as E1 E2 E3. rewrite E1. unfold t, tree_of. cbn [TM.actions].
+    destruct rules as [|r1 rs] eqn:ER.
+    + cbn. split; discriminate.
+    + rewrite (last_map_ne act_of (r1 :: rs) (true, []) (TM.action TM.Dunno 0) ltac:(discriminate)).
+      unfold act_of, TM.action. cbn [TM.acode]. destruct (fst (last (r1 :: rs) (true, []))); cbn; split; intros X; try reflexivity; discriminate.
 Qed.
